@@ -47,6 +47,20 @@ static void rngOp(int a, int b, int c, int d) {
   emit("c20 rng " + std::to_string(a) + " " + std::to_string(b) + " " + std::to_string(c) + " " + std::to_string(d), res);
 }
 
+// dual and symmetric relations agree with each other (implications between relations are NOT demanded: an empty
+// range at the end of another 'finishes' it without overlapping it, by the end-point definitions of the code)
+static void rngSymOp(int a, int b, int c, int d) {
+  if (a > b || c > d) return;
+  const StrRange r{ a, b }, s{ c, d };
+  auto bit = [](bool x) { return x ? "1" : "0"; };
+  std::string res;
+  res += bit(r.Overlaps(s) == s.Overlaps(r)); res += " ";
+  res += bit(r.SharesBorder(s) == s.SharesBorder(r)); res += " ";
+  res += bit((r == s) == (s == r)); res += " ";
+  res += bit(r.IsBefore(s) == s.IsAfter(r));
+  emit("c20 rngsym " + std::to_string(a) + " " + std::to_string(b) + " " + std::to_string(c) + " " + std::to_string(d), res);
+}
+
 int main() {
   vh::Rng rng(vh::seedFromEnv());
   const bool deep = vh::thorough();
@@ -140,7 +154,7 @@ int main() {
   // all pairs of ranges in a window (also reversed ones: outside the precondition, model only)
   const int W = deep ? 7 : 6;
   for (int a = 0; a <= W; ++a) for (int b = 0; b <= W; ++b)
-    for (int c = 0; c <= W; ++c) for (int d = 0; d <= W; ++d) rngOp(a, b, c, d);
+    for (int c = 0; c <= W; ++c) for (int d = 0; d <= W; ++d) { rngOp(a, b, c, d); rngSymOp(a, b, c, d); }
   for (int i = 0; i < 500; ++i)
     rngOp(rng.range(-50, 50), rng.range(-50, 50), rng.range(-50, 50), rng.range(-50, 50));
 
